@@ -1,7 +1,14 @@
-//! C02 / C15: rate limiter. script = [wtype (0 fixed,1 sliding log,2 sliding counter), limit, period_ms,
-//! timeout_ms, n, (op a b)*]; op 1 Poll a | 2 Drop a | 3 Advance a ms | 4 Complete a b (0 ok 1 err 2 panic)
-//! trace per event = [r, started (number of inner call()s made during the poll), in-flight, wake mask]
-//! op 5 = create caller a's call future (call()) without polling it
+//! C02 / C15: rate limiter. script = [wtype (0 fixed,1 sliding log,2 sliding counter), limit, period,
+//! timeout, n + 1000*mode, (op a b)*]
+//! durations (period, timeout): z < 10^15: z ms; 10^15 <= z < 2*10^15: Duration::MAX; z >= 2*10^15: Duration::from_secs(z - 2*10^15)
+//! mode: 0 every caller calls through its own fresh clone of the layered service; 1 all callers call through ONE long-lived
+//!   service value (poll_ready + call again and again); 2 clone chain (caller k uses a clone of the value caller k-1 used);
+//!   3 even callers through the one value, odd callers through clones of clones
+//! op 1 Poll a | 2 Drop a | 3 Advance a ms (1 ms at a time) | 4 Complete a b (0 ok 1 err 2 panic)
+//! op 5 = create caller a's call future (call()) without polling it | 6 Jump a ms (the clock moves in ONE step)
+//! trace per event = [r, started = number of inner call()s made since the end of the previous event (whatever made them),
+//!   in-flight, wake mask]
+//! The virtual clock restarts at 0 for every script (Instant = 10^6 s + t), so Instant overflow thresholds are exact.
 use std::time::Duration;
 use tower::{Layer, Service};
 use tower_resilience_ratelimiter::{RateLimiterLayer, RateLimiterServiceError, WindowType};
@@ -10,7 +17,9 @@ use verif_harness::*;
 type Res = Result<i128, RateLimiterServiceError<i128>>;
 
 fn run(s: &[i128]) -> Vec<i128> {
-    let n = zn(s, 4).max(0) as usize;
+    let n = (zn(s, 4).max(0) % 1000) as usize;
+    let mode = zn(s, 4).max(0) / 1000;
+    VIRT_NS.store(0, std::sync::atomic::Ordering::SeqCst);
     let rt = paused_rt();
     let sv: Vec<i128> = s.to_vec();
     rt.block_on(async move {
@@ -20,10 +29,11 @@ fn run(s: &[i128]) -> Vec<i128> {
         let layer = RateLimiterLayer::builder()
             .window_type(match zn(s, 0) { 0 => WindowType::Fixed, 1 => WindowType::SlidingLog, _ => WindowType::SlidingCounter })
             .limit_for_period(zn(s, 1).max(0) as usize)
-            .refresh_period(Duration::from_millis(zn(s, 2).max(0) as u64))
-            .timeout_duration(Duration::from_millis(zn(s, 3).max(0) as u64))
+            .refresh_period(dur_of(zn(s, 2)))
+            .timeout_duration(dur_of(zn(s, 3)))
             .build();
-        let base = layer.layer(inner);
+        let mut base = layer.layer(inner);
+        let mut chain = base.clone();
         let mut callers: Vec<Option<Manual<Res>>> = (0..n).map(|_| None).collect();
         let mut created = vec![false; n];
         let mut tr = Vec::new();
@@ -31,23 +41,29 @@ fn run(s: &[i128]) -> Vec<i128> {
             .chunks(3).filter(|c| c.len() == 3).map(|c| (c[0], c[1], c[2])).collect();
         for (op, a, b) in evs {
             let mut r: i128 = -1;
-            let mut started = 0i128;
+            let started: i128;
             match op {
                 1 | 2 | 5 => {
                     if a < 0 || a as usize >= n { continue; }
                     let i = a as usize;
                     if !created[i] {
                         created[i] = true;
-                        let mut svc = base.clone();
-                        futures::future::poll_fn(|cx| svc.poll_ready(cx)).await.ok();
-                        callers[i] = Some(Manual::new(svc.call(i as i128)));
+                        let through_one = mode == 1 || (mode == 3 && i % 2 == 0);
+                        if through_one {
+                            futures::future::poll_fn(|cx| base.poll_ready(cx)).await.ok();
+                            callers[i] = Some(Manual::new(base.call(i as i128)));
+                        } else {
+                            let mut svc = if mode == 0 { base.clone() } else { chain.clone() };
+                            futures::future::poll_fn(|cx| svc.poll_ready(cx)).await.ok();
+                            callers[i] = Some(Manual::new(svc.call(i as i128)));
+                            if mode != 0 { chain = svc; }
+                        }
                     }
                     let m = callers[i].as_mut().unwrap();
                     if op == 5 {
                         // only create the future (call() without a poll)
                     } else if op == 1 {
                         if !m.alive() { r = 9; } else {
-                            sh.take_starts();
                             let fin = m.poll();
                             r = if !fin { 0 } else if m.panicked { 5 } else {
                                 match m.done.take().unwrap() {
@@ -56,7 +72,6 @@ fn run(s: &[i128]) -> Vec<i128> {
                                     Err(RateLimiterServiceError::RateLimited) => 3,
                                 }
                             };
-                            started = sh.take_starts().len() as i128; // number of inner call()s made during this poll
                         }
                     } else {
                         m.drop_fut();
@@ -64,10 +79,17 @@ fn run(s: &[i128]) -> Vec<i128> {
                     }
                 }
                 3 => advance_ms(a.max(0) as u64).await,
+                6 => {
+                    let ms = a.max(0).min(10_000_000_000_000) as u64;
+                    VIRT_NS.fetch_add(ms * 1_000_000, std::sync::atomic::Ordering::SeqCst);
+                    tokio::time::advance(Duration::from_millis(ms)).await;
+                }
                 4 => { if a >= 0 && (a as usize) < n { sh.complete(a, 0, match b { 0 => Outcome::Ok(a), 1 => Outcome::Err(a), _ => Outcome::Panic }); } }
                 _ => continue,
             }
             settle().await;
+            // every inner call() made since the end of the previous event, by whatever (call(), a poll, a drop, a timer)
+            started = sh.take_starts().len() as i128;
             let mut mask: i128 = 0;
             for (j, c) in callers.iter().enumerate() {
                 if let Some(m) = c { if m.alive() && m.woken() { mask += 1i128 << j; } }
@@ -76,6 +98,13 @@ fn run(s: &[i128]) -> Vec<i128> {
         }
         tr
     })
+}
+
+fn dur_of(z: i128) -> Duration {
+    const E15: i128 = 1_000_000_000_000_000;
+    if z >= 2 * E15 { Duration::from_secs((z - 2 * E15).min(u64::MAX as i128) as u64) }
+    else if z >= E15 { Duration::MAX }
+    else { Duration::from_millis(z.max(0) as u64) }
 }
 
 fn main() { main_loop(run); }
